@@ -4,7 +4,10 @@ import itertools
 from common import enc_str, Reader
 import c18_css
 import c18_seq
+import c18_ws
 
+MARKUP_FRAGS = ['${', '${1', '${1:', '}', '{', '[', ']', '(', ')', '$#', '$$@-3', '*3', '*', '\\', '"', "'", 'ab', 'div',
+                '1', '/', ' ', '=', '.c', '#i', '>', '+', '^']   # fragment vocabulary of the random mixes (gen_markup, c18_ws)
 MARKUP_ALPHABET = list('aA1$#.*>+^()[]{}="\'/\\-@:! ') + ['\n', 'é', '٣', ' ', '%', '²']
 OPS = {'child': 0, 'sibling': 1, 'climb': 2, 'class': 3, 'id': 4, 'close': 5, 'equal': 6}
 BCTX = {'group': 0, 'attribute': 1, 'expression': 2}
@@ -123,8 +126,7 @@ def gen_markup(ctx, tier):
             cases.append(''.join(tup))
     n_rand = 6000 if tier == 'quick' else 150000
     rng = ctx.rng
-    frags = ['${', '${1', '${1:', '}', '{', '[', ']', '(', ')', '$#', '$$@-3', '*3', '*', '\\', '"', "'", 'ab', 'div',
-             '1', '/', ' ', '=', '.c', '#i', '>', '+', '^']
+    frags = MARKUP_FRAGS
     for _ in range(n_rand):
         if rng.random() < 0.5:
             ln = rng.randint(1, 60 if tier == 'thorough' else 30)
@@ -142,7 +144,11 @@ def run(ctx):
                        'strings/fragment mixes; a case is non-trivial when it tokenizes into >=2 tokens or raises the '
                        'scanner error; distinct by input string') % (3 if ctx.tier == 'quick' else 4, 22 if ctx.tier == 'quick' else 24)
     model = ctx.model('markup') if ok else None
-    cases = gen_markup(ctx, ctx.tier)
+    base_cases = gen_markup(ctx, ctx.tier)
+    # white space / line-break conventions in every position (c18_ws.py): same oracle, same correspondence
+    ws_cases = c18_ws.gen_markup_ws(ctx, ctx.tier, MARKUP_ALPHABET, MARKUP_FRAGS)
+    ctx.cov['white_space_class'] = {'markup_inputs': len(ws_cases)}
+    cases = base_cases + ws_cases
     impl = [impl_markup(s) for s in cases]
     # property oracle on the implementation (search layer; runs always, cheap)
     reporter = c18_seq.StreamReporter(ctx, 'markup')   # re-runs the first failures alone in a fresh interpreter
@@ -162,6 +168,9 @@ def run(ctx):
                 ctx.nontrivial(('m', s))
             for k, _, _ in r[1]:
                 ctx.cover('markup:token:' + k[0])
+        if j >= len(base_cases):
+            for b in c18_ws.classify(s):
+                ctx.cover('markup:ws:%s:%s' % (b, r[0]))
     reporter.finish()
     for s, r in list(zip(cases, impl))[40:46]:
         ctx.sample({'input': s, 'impl': repr(r)[:200]})
@@ -182,7 +191,8 @@ def run(ctx):
         ctx.cov['correspondence']['markup_tokenizer'] = {'cases': len(cases), 'disagreements': dis}
     long_digit_runs(ctx)
     c18_css.run_css(ctx)
-    call_sequences(ctx, cases)
+    ctx.cov['rule'] += ' || ' + c18_ws.rule_text(ctx.tier, len(ws_cases), ctx.cov['white_space_class'].get('css_inputs', 0))
+    call_sequences(ctx, base_cases, ws_cases)
 
 
 # -- call sequences: the property on every call of a process, results owned by the caller (see c18_seq.py) ----------
@@ -220,7 +230,7 @@ def _css_lang():
     return c18_seq.Lang('css', tokenize, c18_css.canon_css_tokens, c18_css.tiling_oracle, parse, expand)
 
 
-def call_sequences(ctx, markup_cases):
+def call_sequences(ctx, markup_cases, ws_cases=()):
     rng = ctx.rng
     quick = ctx.tier == 'quick'
     # subjects: realistic abbreviations first (the systematic edit-then-again sweep uses the first few), then draws
@@ -228,6 +238,8 @@ def call_sequences(ctx, markup_cases):
     tail = markup_cases[-(6000 if quick else 150000):]
     msub = [(s, False) for s in c18_seq.MARKUP_SUBJECTS]
     msub += [(rng.choice(tail), False) for _ in range(400 if quick else 4000)]
+    if ws_cases:   # subjects with white space variants / line-break conventions (c18_ws.py)
+        msub += [(rng.choice(ws_cases), False) for _ in range(100 if quick else 1000)]
     csub = []
     for s in c18_seq.CSS_SUBJECTS:
         csub.append((s, False))
